@@ -2,6 +2,7 @@ package wasi_snapshot_preview1
 
 import (
 	"context"
+	"math"
 	"time"
 
 	"github.com/tetratelabs/wazero/api"
@@ -57,6 +58,13 @@ func pollOneoffFn(_ context.Context, mod api.Module, params []uint64) sys.Errno 
 
 	if nsubscriptions == 0 {
 		return sys.EINVAL
+	}
+
+	// The byte sizes of both buffers are computed in 32 bits below. A count
+	// whose size does not fit cannot be in memory (which is at most 4GiB), and
+	// a wrapped product would pass the bounds checks with a too-short buffer.
+	if uint64(nsubscriptions)*48 > math.MaxUint32 {
+		return sys.EFAULT
 	}
 
 	mem := mod.Memory()
